@@ -187,6 +187,9 @@ func (e *zzG04Env) msSince(until *time.Time) (u int64) {
 	switch {
 	case d >= time.Duration(zzG04Horizon)*time.Millisecond:
 		return zzG04Horizon
+	case d <= 0:
+		// At or before the origin: no instant of the trace (and not "none").
+		return int64(d/time.Millisecond) - 1
 	case d%time.Millisecond != 0:
 		return -7777
 	default:
@@ -208,12 +211,14 @@ func (e *zzG04Env) cur() (mem, disk zzG04Proj) {
 	return mem, zzG04Proj{En: v.En, U: e.msSince(v.Until)}
 }
 
-// wouldStart says whether the next observation starts the write-back worker
-// (no worker is ever in progress between the steps of this harness).
-func (e *zzG04Env) wouldStart() (ok bool) {
+// maybeRuns says whether the next observation may start the write-back
+// worker (a deadline is stored; no worker is ever in progress between the
+// steps of this harness).  Whether it does is the code's decision; the worker,
+// if started, has run when the step is over (synctest.Wait).
+func (e *zzG04Env) maybeRuns() (ok bool) {
 	_, until := e.flt.ProtectionStatus()
 
-	return until != nil && !time.Now().Before(*until)
+	return until != nil
 }
 
 func (e *zzG04Env) trace(w *zzWriter, k, steps int) {
@@ -246,17 +251,17 @@ func (e *zzG04Env) trace(w *zzWriter, k, steps int) {
 		case c < 25:
 			en := rng.Intn(4) == 0
 			dk, d, ms := "num", int64(0), ""
-			switch x := rng.Intn(20); {
-			case x < 4:
+			switch x := rng.Intn(40); {
+			case x < 8:
 				ms = []string{"", "0"}[rng.Intn(2)]
-			case x < 16:
+			case x < 34:
 				d = []int64{1, base, base, base + 1, 2 * base, 1 + rng.Int63n(3*base)}[rng.Intn(6)]
 				if d > 999999999 {
 					d = 999999999
 				}
 
 				ms = strconv.FormatInt(d, 10)
-			case x < 19:
+			case x < 39:
 				dk, ms = "big", zzG04BigMS[rng.Intn(len(zzG04BigMS))]
 			default:
 				dk, ms = "huge", zzG04HugeMS[rng.Intn(len(zzG04HugeMS))]
@@ -267,7 +272,7 @@ func (e *zzG04Env) trace(w *zzWriter, k, steps int) {
 			line("set", map[string]any{"en": en, "d": d, "dk": dk, "res": res, "detail": detail})
 		case c < 55:
 			// GET /control/status.
-			started := e.wouldStart()
+			started := e.maybeRuns()
 			r := httptest.NewRequest(http.MethodGet, "/control/status", nil)
 			rw := httptest.NewRecorder()
 			e.web.handleStatus(rw, r)
@@ -290,7 +295,7 @@ func (e *zzG04Env) trace(w *zzWriter, k, steps int) {
 			line("status", m)
 		case c < 65:
 			// GET /control/dns_info.
-			started := e.wouldStart()
+			started := e.maybeRuns()
 			code, resp := e.call(e.handlers["/control/dns_info"], http.MethodGet, "/control/dns_info", "")
 			synctest.Wait()
 			v := &struct {
@@ -340,9 +345,9 @@ func TestZZVerifG04Status(t *testing.T) {
 	w := zzNewWriter(t, "VERIF_OUT_TRACE")
 	defer w.close()
 
-	ntr, steps := 80, 60
+	ntr, steps := 150, 40
 	if strings.TrimSpace(zzGetenv("VERIF_TIER")) == "thorough" {
-		ntr, steps = 600, 80
+		ntr, steps = 1200, 50
 	}
 
 	var sel []int
